@@ -946,7 +946,7 @@ func (fc *FnCtx) verify() {
 		fc.assumeStructInv(st, a)
 	}
 	vars := bindParams(con, fn, args)
-	if fc.conformImpl != nil && len(args) > 0 && con.Decl != nil && con.Decl.Recv != nil {
+	if fc.conformIface && len(args) > 0 && con.Decl != nil && con.Decl.Recv != nil {
 		// `self` of the interface contract is the receiver seen through the interface
 		self := args[0]
 		if self.K != KIface {
